@@ -57,6 +57,10 @@ VARIANTS = {
         # the other expression kinds
         ("kinds", {"Names": {"a"}, "Kinds": ALL_KINDS, "BinOps": {"+", "**"}, "UnOps": {"-", "not"}, "MaxWild": 1,
                    "StmtKindsOn": {"Assign"}, "MaxModSize": 7}, None),
+        # nodes of one class that differ in which optional part is present: a[x:] a[:x] a[::x] a[x:y],
+        # lambda *a / lambda **a; two statements, so that the complementary form is around
+        ("optional", {"Names": {"a"}, "Nums": set(), "Kinds": {"Slice", "LambdaStar"}, "MaxStmts": 2, "MaxModSize": 14,
+                      "MaxWild": 1, "StmtKindsOn": {"Expr"}, "FocusKinds": {"expr"}}, None),
         # redundant parentheses and line breaks around the instance / the bound code
         ("deco", {"Kinds": {"BinOp", "Call"}, "MaxWild": 1, "DecoKinds": ALL_DECO}, None),
     ],
@@ -71,6 +75,8 @@ VARIANTS = {
         ("kinds", {"Names": {"a"}, "Kinds": ALL_KINDS, "BinOps": {"+", "**"}, "UnOps": {"-", "not"}, "MaxWild": 2,
                    "StmtKindsOn": {"Expr", "Assign"}, "MaxModSize": 7}, None),
         ("deco", {"Kinds": {"BinOp", "Call", "UnaryOp", "Attribute"}, "MaxWild": 2, "DecoKinds": ALL_DECO}, None),
+        ("optional", {"Names": {"a"}, "Kinds": {"Slice", "LambdaStar"}, "MaxStmts": 2, "MaxModSize": 14,
+                      "MaxWild": 1, "StmtKindsOn": {"Expr"}, "FocusKinds": {"expr"}}, None),
     ] + [("sim%d" % k, SIM, 4000) for k in range(6)],
 }
 
